@@ -169,11 +169,11 @@ Definition SMPose_eq (lc : cls) (r : kind) : mres :=
   | Obj rc => if cls_beq lc rc then Out (raw_bool (op2 lc r OElem)) else Out Raise
   | _ => Out Raise
   end.
-(* SMPose.__ne__, :1327:  [not x for x in left == right]  -- iterates the result of the nested == *)
+(* SMPose.__ne__ (after fix a4db0b4):  eq = left == right;  [not x for x in eq] if eq is a list else  not eq *)
 Definition SMPose_ne (lc : cls) (r : kind) : mres :=
   match rec Eq (Obj lc) r with
   | Value RBoolList p => Out (Value RBoolList p)
-  | Value RBool _ => Out Raise                     (* TypeError: 'bool' object is not iterable *)
+  | Value RBool p => Out (Value RBool p)
   | Raise => Out Raise
   | _ => Out Unmodelled
   end.
@@ -245,8 +245,15 @@ Definition Twist_mul (tw se : cls) (r : kind) : mres :=
   | KFloat | KInt => Out (Value (RObj tw) Computed)
   | KArr _ => Out Raise
   end.
-(* Twist3.__rmul__, :990-993: the scalar branch refers to an undefined name [self] (NameError), the other raises *)
-Definition Twist3_rmul (sc : cls) (l : kind) : mres := Out Raise.
+(* Twist3.__rmul__ / Twist2.__rmul__ (after fix 11978d3):  if isscalar(left): return TwistN(right.S * left)  else raise.
+   [.S] is the element for a single-valued twist but the Python LIST of elements for a multi-valued one: list * int repeats
+   the list (the constructor accepts it: the twist's own elements, repeated), list * float is a TypeError. *)
+Definition Twist_rmul (sc : cls) (l : kind) : mres :=
+  match l with
+  | KInt => Out (Value (RObj sc) (if n =? 1 then Computed else ListOp))
+  | KFloat => if n =? 1 then Out (Value (RObj sc) Computed) else Out Raise
+  | _ => Out Raise
+  end.
 (* SMTwist.__eq__/__ne__, :262-264/:287-289 *)
 Definition SMTwist_cmp (lc : cls) (r : kind) : mres :=
   match r with Obj rc => if cls_beq lc rc then Out (Value (bools n) Computed) else Out Raise | _ => Out Raise end.
@@ -285,7 +292,13 @@ Definition SpatialVelocity_matmul (lc : cls) (r : kind) : mres :=          (* :4
               else Out Raise
   | _ => Out Raise
   end.
-Definition SpatialInertia_add (lc : cls) (r : kind) : mres := Out Raise.   (* :585-587: TypeError, or AttributeError (left.I) *)
+(* :585-587 (after fix 2cebac9): SpatialInertia(left.A + right.A); for multi-valued operands .A is a list, + concatenates
+   and the constructor refuses the list *)
+Definition SpatialInertia_add (lc : cls) (r : kind) : mres :=
+  match r with
+  | Obj rc => if isinst rc (C SpatialInertia) && (n =? 1) then Out (Value (RObj SpatialInertia) Computed) else Out Raise
+  | _ => Out Raise
+  end.
 Definition SpatialInertia_mul (lc : cls) (r : kind) : mres :=              (* :604-611: left.A @ right.A *)
   match r with
   | Obj rc => if negb (n =? 1) then Out Raise
@@ -308,8 +321,8 @@ Definition DualQuaternion_addsub (o : op) (lc : cls) (r : kind) : mres :=    (* 
                                                       Quaternion + number fails its assertion *)
   | _ => Out Raise
   end.
-(* :192-203.  NOTE: no [else] -- anything that is neither a DualQuaternion nor (for a unit one) a 3-vector gives None;
-   and the class test is  isinstance(left, UDQ) and isinstance(left, UDQ)  (left twice) *)
+(* :192-203.  NOTE: no [else] -- anything that is neither a DualQuaternion nor (for a unit one) a 3-vector gives None.
+   The product is a UnitDualQuaternion iff BOTH operands are (fix 56d2f84; the test used to look at left twice). *)
 Definition DualQuaternion_mul (lc : cls) (r : kind) : mres :=
   match r with
   | Obj rc =>
@@ -318,7 +331,7 @@ Definition DualQuaternion_mul (lc : cls) (r : kind) : mres :=
         let d1 := rec Mul (Obj (real_cls lc)) (Obj Quaternion) in
         let d2 := rec Mul (Obj Quaternion) (Obj (real_cls rc)) in
         if is_quat_value rr && is_quat_value d1 && is_quat_value d2 && is_quat_value (rec Add (Obj Quaternion) (Obj Quaternion))
-        then (if isinst lc (C UnitDualQuaternion) then Out (Value (RObj UnitDualQuaternion) Computed)
+        then (if isinst lc (C UnitDualQuaternion) && isinst rc (C UnitDualQuaternion) then Out (Value (RObj UnitDualQuaternion) Computed)
               else Out (Value (RObj DualQuaternion) Computed))
         else Out Raise
       else Out ReturnsNone
@@ -329,12 +342,12 @@ Definition DualQuaternion_mul (lc : cls) (r : kind) : mres :=
 (* collections.UserList (CPython Lib/collections/__init__.py) *)
 (* what  cls(list)  does with a list whose first element is valid and which also holds elements of shape [fs]:
    SMUserList.arghandler list path calls self._import on each; SMUserList._import returns None for an invalid element
-   (so the object is built, holding None), the twist / spatial-vector versions raise TypeError *)
+   and arghandler then raises ValueError (fix f16dbda; the None used to be stored), the twist / spatial-vector versions
+   raise TypeError themselves *)
 Definition ctor_list (lc : cls) (fs : list nat) (same : bool) : outcome :=
   if shape_beq fs (eshape H lc) then Value (RObj lc) (if same then ListOp else ForeignElements)
   else match owner lc Import with
-       | Some (B SMUserList) => Value (RObj lc) ForeignElements
-       | Some (C Twist3) | Some (C Twist2) | Some (B SpatialVector) => Raise
+       | Some (B SMUserList) | Some (C Twist3) | Some (C Twist2) | Some (B SpatialVector) => Raise
        | _ => Unmodelled
        end.
 Definition UserList_add (lc : cls) (r : kind) : mres :=
@@ -404,7 +417,7 @@ Definition body0 (k : pyc) (m : meth) (self : cls) (other : kind) : mres :=
   | C UnitQuaternion, Fwd Eq | C UnitQuaternion, Fwd Ne => UnitQuaternion_cmp self other
   | C Twist3, Fwd Mul => Twist_mul Twist3 SE3 other
   | C Twist2, Fwd Mul => Twist_mul Twist2 SE2 other
-  | C Twist3, Rev Mul => Twist3_rmul self other
+  | C Twist3, Rev Mul | C Twist2, Rev Mul => Twist_rmul self other
   | B SMTwist, Fwd Eq | B SMTwist, Fwd Ne => SMTwist_cmp self other
   | C Plucker, Fwd Mul => Plucker_mul self other
   | C Plucker, Rev Mul => Plucker_rmul self other
@@ -608,10 +621,8 @@ Inductive cause :=
   | IsinstanceAsym        (* SMPose.__mul__/__truediv__ test isinstance(left, right.__class__): SE3 op SO3, SE2 op SO2 give the identity *)
   | UserListAdd           (* Twist2/Twist3/Plucker inherit UserList.__add__: list concatenation *)
   | UserListRepeat        (* spatial vectors inherit UserList.__mul__: list repetition by an int (list * ndarray for an array) *)
-  | Twist2RmulTypo        (* Twist2 spells __rmul__ as __rmul: int * Twist2 is UserList.__rmul__ (repetition) *)
-  | UDQClass              (* DualQuaternion.__mul__ tests left twice: UnitDualQuaternion * DualQuaternion is "unit" *)
+  | TwistRmulMulti        (* Twist2/Twist3.__rmul__ multiply right.S, a Python list for a multi-valued twist: int * twist repeats the list *)
   | DQMulNone             (* DualQuaternion.__mul__ has no else: returns None *)
-  | PoseNeSingle          (* SMPose.__ne__ iterates a bool *)
   | UserListEq            (* spatial vectors / SpatialInertia inherit UserList.__eq__: bool(array == array) raises *)
   | PluckerEqMulti.       (* Plucker.__eq__/__ne__ compare the first elements only: one bool for a sequence *)
 Scheme Equality for cause.
@@ -627,15 +638,15 @@ Definition root_cause (n : nat) (o : op) (l r : kind) : option cause :=
         end
       else if op_beq o Add && opt_pyc_beq (owner a (Fwd Add)) (Some (B UserList)) then
         match r with
-        | Obj b => if is_seq b && (shape_beq (eshape H b) (eshape H a) || opt_pyc_beq (owner a Import) (Some (B SMUserList))) then Some UserListAdd else None
-        | KArr (_ :: t) => if shape_beq t (eshape H a) || opt_pyc_beq (owner a Import) (Some (B SMUserList)) then Some UserListAdd else None
+        | Obj b => if is_seq b && shape_beq (eshape H b) (eshape H a) then Some UserListAdd else None
+        | KArr (_ :: t) => if shape_beq t (eshape H a) then Some UserListAdd else None
         | _ => None
         end
       else None
   | Mul, Obj a, Obj b | Div, Obj a, Obj b =>
       if is_pose a && strict_subclass a b then Some IsinstanceAsym
       else if op_beq o Mul && is_dq a then
-        (if is_dq b then (if cls_beq a UnitDualQuaternion && cls_beq b DualQuaternion then Some UDQClass else None) else Some DQMulNone)
+        (if is_dq b then None else Some DQMulNone)
       else None
   | Mul, Obj a, KInt => if is_dq a then Some DQMulNone else if opt_pyc_beq (owner a (Fwd Mul)) (Some (B UserList)) then Some UserListRepeat else None
   | Mul, Obj a, KFloat => if is_dq a then Some DQMulNone else None
@@ -645,11 +656,10 @@ Definition root_cause (n : nat) (o : op) (l r : kind) : option cause :=
               && (let t := bshape (n :: eshape H a) s in isvector t 6 || match t with [6; _] => true | _ => false end)
            then Some UserListRepeat       (* list * ndarray is a NumPy product that the constructor accepts *)
            else None
-  | Mul, KInt, Obj b => if cls_beq b Twist2 && opt_pyc_beq (owner b (Rev Mul)) (Some (B UserList)) then Some Twist2RmulTypo else None
+  | Mul, KInt, Obj b => if isinst b (B SMTwist) && opt_pyc_beq (owner b (Rev Mul)) (Some (C b)) && negb (n =? 1) then Some TwistRmulMulti else None
   | Eq, Obj a, Obj b | Ne, Obj a, Obj b =>
       if cls_beq a b then
-        (if op_beq o Ne && is_pose a && (n =? 1) then Some PoseNeSingle
-         else if opt_pyc_beq (owner a (Fwd Eq)) (Some (B UserList)) then Some UserListEq
+        (if opt_pyc_beq (owner a (Fwd Eq)) (Some (B UserList)) then Some UserListEq
          else if cls_beq a Plucker && negb (n =? 1) then Some PluckerEqMulti
          else None)
       else None
@@ -665,10 +675,8 @@ Definition cause_outcome (c : cause) (n : nat) (o : op) (l r : kind) : outcome :
       Value (RObj a) (match r with Obj b => if cls_beq a b then ListOp else ForeignElements | _ => ForeignElements end)
   | UserListRepeat, Obj a =>
       match r with KArr s => SpatialVector_ctor_array a (bshape (n :: eshape H a) s) | _ => Value (RObj a) ListOp end
-  | Twist2RmulTypo, _ => Value (RObj Twist2) ListOp
-  | UDQClass, _ => Value (RObj UnitDualQuaternion) Computed
+  | TwistRmulMulti, _ => match r with Obj b => Value (RObj b) ListOp | _ => Unmodelled end
   | DQMulNone, _ => ReturnsNone
-  | PoseNeSingle, _ => Raise
   | UserListEq, _ => Raise
   | PluckerEqMulti, _ => Value RBool Computed
   | _, _ => Unmodelled
